@@ -2,6 +2,7 @@ package batching
 
 import (
 	"context"
+	"sync"
 )
 
 type BatchFetcher[T, R any] func(ctx context.Context, events []T) ([]R, error)
@@ -15,6 +16,12 @@ type ReorderFetcher[T, R any] struct {
 	fetchBatch BatchFetcher[T, R]
 	errChan    chan error
 	buffer     *ReorderBuffer[[]R]
+
+	// flushMu makes taking a batch and reserving its place in the output
+	// order one step. flush runs on the goroutine that adds events and on the
+	// batch time-out goroutine: without it the two could take their batches
+	// in one order and their sequence numbers in the other.
+	flushMu sync.Mutex
 }
 
 type NewReorderFetcherParams[T, R any] struct {
@@ -69,15 +76,19 @@ func (d *ReorderFetcher[T, R]) Flush(ctx context.Context) {
 
 // flush the current batch and then asynchronously run the `FetchBatch` callback.
 func (d *ReorderFetcher[T, R]) flush(ctx context.Context, token BatchToken) {
+	d.flushMu.Lock()
 	events := d.batcher.Flush(token)
 	if d.batcher == nil {
 		panic("batcher became nil")
 	}
 	if len(events) == 0 {
+		d.flushMu.Unlock()
 		return
 	}
 
 	seqNum := d.buffer.Reserve()
+	d.flushMu.Unlock()
+
 	go func() {
 		result, err := d.fetchBatch(ctx, events)
 		if err != nil {
